@@ -62,7 +62,7 @@ var C04 = mk("C04",
 		"monitor: the simulated device holds exactly the live stored values of transactions whose apply did not fail. Non-trivial = at least one write; distinct = distinct script.",
 	conv, 100, 3000, monitorC04)
 
-var crash = Profile{Targets: 2, Sets: 4, Faults: false, Verdicts: false, DevErrors: false, Injections: true, RollbackBias: true,
+var crash = Profile{Targets: 2, Sets: 4, Faults: false, Verdicts: false, DevErrors: false, Injections: true, RollbackBias: true, RollbackPct: 35,
 	Rollbacks: true, Serializable: false, Persistent: false, Deletes: true, MaxSteps: 120, Drain: true, Twice: true, StartConn: true, CleanPct: 75}
 
 // C07: every history is run twice on the real system: with failed/lost writes at random effect
